@@ -8,7 +8,7 @@
 (* post-state with the step operators and names every clause that fails.   *)
 (* Verdicts are total: one <<"V", {id, failed, detail}>> line per case.     *)
 (***************************************************************************)
-EXTENDS Criteria, Disparity, Refinement, Validation, Filter, Interpolation, Aggregation, Json, IOUtils, TLC
+EXTENDS Criteria, Disparity, Refinement, Validation, Filter, Interpolation, Aggregation, Confidence, Json, IOUtils, TLC
 
 Cases == ndJsonDeserialize(IOEnv.TRACE_FILE)
 
@@ -242,7 +242,53 @@ AggVerdict(e) ==
                             THEN <<AggSum(e, x[1][1], x[1][2], e.first + x[2] - 1, x[2]), AggCount(e, x[1][1], x[1][2], e.first + x[2] - 1)>>
                             ELSE <<>>>>]
 
+\* ------------------------------------------------------------------ confidence measures (C12) --------
+\* e.method in {"ambiguity", "risk", "interval_bounds", "std_intensity"}; outputs in e.out (integers, see the driver)
+ConfPixelFail(e, x) ==
+   LET row == IF e.method = "std_intensity" THEN <<>> ELSE Row(e, x[1], x[2])  allnan == FiniteIdx(row) = {}
+   IN CASE e.method = "ambiguity" ->
+             \* out.count = the unnormalised integral (1 - value when normalisation is off)
+             (IF ~(AmbLo(e, row) <= e.out.count[x[1]][x[2]] /\ e.out.count[x[1]][x[2]] <= AmbHi(e, row)) THEN {"ambiguity_integral"} ELSE {})
+        [] e.method = "risk" ->
+             IF allnan THEN (IF e.out.rmax[x[1]][x[2]] # NaN \/ e.out.rmin[x[1]][x[2]] # NaN THEN {"risk_nan_when_no_cost"} ELSE {})
+             ELSE \* rmax / rmin = round(1000 * risk): |1000 * sum - out * K| <= K
+                  (IF NoTie(e, row) /\ ~(Abs(1000 * RiskMaxSum(e, row) - e.out.rmax[x[1]][x[2]] * e.K) <= e.K) THEN {"risk_max"} ELSE {})
+                  \cup (IF NoTie(e, row) /\ ~(Abs(1000 * RiskMinSum(e, row) - e.out.rmin[x[1]][x[2]] * e.K) <= e.K) THEN {"risk_min"} ELSE {})
+                  \cup (IF ~(e.out.rmin[x[1]][x[2]] # NaN /\ e.out.rmax[x[1]][x[2]] # NaN /\ 0 <= e.out.rmin[x[1]][x[2]] + 1
+                           /\ e.out.rmin[x[1]][x[2]] <= e.out.rmax[x[1]][x[2]] + 1) THEN {"risk_ordered"} ELSE {})
+        [] e.method = "interval_bounds" ->
+             IF allnan THEN (IF e.out.inf[x[1]][x[2]] # NaN \/ e.out.sup[x[1]][x[2]] # NaN THEN {"bounds_nan_when_no_cost"} ELSE {})
+             ELSE \* inf / sup = scaled disparity (disparity * s) of the bound
+                  (IF ~(<<e.out.inf[x[1]][x[2]] - e.first + 1, e.out.sup[x[1]][x[2]] - e.first + 1>> \in BoundsAllowed(e, row)) THEN {"interval_bounds"} ELSE {})
+                  \cup (IF ~(e.out.inf[x[1]][x[2]] - e.first + 1 <= WtaIdxMin(row) /\ WtaIdxMin(row) <= e.out.sup[x[1]][x[2]] - e.first + 1) THEN {"bounds_bracket_wta"} ELSE {})
+        [] e.method = "std_intensity" ->
+             \* out.q = round(100 * std of the left window); std^2 = VarLN / n^2 (exact integers); NaN on the border
+             LET q == e.out.q[x[1]][x[2]]  n == e.win * e.win
+             IN IF ~WindowInside(e, x[1], x[2]) THEN (IF q # NaN THEN {"std_border_nan"} ELSE {})
+                ELSE IF q = NaN \/ q < 0 THEN {"std_intensity"}
+                ELSE IF ~((IF q > 0 THEN (q - 1) * (q - 1) * n * n <= 10000 * VarLN(e, x[1], x[2]) ELSE TRUE)
+                          /\ 10000 * VarLN(e, x[1], x[2]) <= (q + 1) * (q + 1) * n * n) THEN {"std_intensity"} ELSE {}
+        [] OTHER -> {}
+\* normalised ambiguity (values in thousandths): in [0, 1], order-consistent with the integral, extremes at 1 and 0
+AmbNormFail(e) ==
+   LET P == Pix(e)
+       v(x) == e.out.norm[x[1]][x[2]]
+       a(x) == e.out.count[x[1]][x[2]]
+   IN (IF \E x \in P : v(x) = NaN \/ v(x) < 0 \/ v(x) > 1000 THEN {"ambiguity_range"} ELSE {})
+      \cup (IF \E x \in P, y \in P : a(x) < a(y) /\ v(x) < v(y) THEN {"ambiguity_order"} ELSE {})
+      \cup (IF \E x \in P, y \in P : a(x) = a(y) /\ v(x) # v(y) THEN {"ambiguity_order"} ELSE {})
+      \cup (IF ~(\E x \in P : v(x) = 1000) \/ ~(\E x \in P : v(x) = 0) THEN {"ambiguity_extremes"} ELSE {})
+ConfVerdict(e) ==
+   LET fails == [x \in Pix(e) |-> ConfPixelFail(e, x)]
+       bad == {x \in Pix(e) : fails[x] # {}}
+       nf == IF e.method = "ambiguity" /\ e.normalized THEN AmbNormFail(e) ELSE {}
+   IN [failed |-> UNION {fails[x] : x \in Pix(e)} \cup nf
+                  \cup (IF ~e.out.bands_ok THEN {"bands_appended_and_named"} ELSE {})
+                  \cup (IF ~e.out.frame_ok THEN {"old_bands_and_costs_unchanged"} ELSE {}),
+       detail |-> IF bad = {} THEN <<>> ELSE LET x == CHOOSE y \in bad : TRUE IN <<x[1], x[2], IF e.method = "std_intensity" THEN <<>> ELSE Row(e, x[1], x[2])>>]
+
 Verdict(e) == CASE e.step = "matching_cost" -> McVerdict(e)
+                [] e.step = "confidence" -> ConfVerdict(e)
                 [] e.step = "aggregation" -> AggVerdict(e)
                 [] e.step = "fill" -> FillVerdict(e)
                 [] e.step = "regularize" -> RegVerdict(e)
